@@ -23,6 +23,7 @@ import itertools
 import json
 import os
 import random as _random
+import re
 import sys
 import time
 
@@ -1128,6 +1129,29 @@ def contra_designs():
     return out
 
 
+def eqboth_designs():
+    """M(x) < M(y) where the callers reach x and y only through == classes ON BOTH ENDS (x' == x < y == y',
+    blocks call x' and y'): declared classes, and the classes pass-through methods create"""
+    out = []
+    for rev in (False, True):
+        t = "_rev" if rev else ""
+
+        def two(d, a, b):
+            for nm, c in ([("b0", [b]), ("b1", [a])] if rev else [("b0", [a]), ("b1", [b])]):
+                d.block(nm, c)
+            out.append(d)
+        d = _two("eqboth_decl" + t, "eqboth")
+        d.constrain("eq", "l0.m0", "l0.m2", site="l0"); d.constrain("mm", "l0.m2", "l0.m3", site="l0")
+        d.constrain("eq", "l0.m3", "l0.m1", site="l0")
+        two(d, "l0.m0", "l0.m1")
+        for kind in ("port", "nb", "fl"):
+            d = CLDesign("eqboth_pt_%s%s" % (kind, t), "eqboth")
+            d.leaf("l0", "m0:%s m1:%s" % (kind, kind))
+            d.constrain("mm", "l0.m0", "l0.m1", site="l0")
+            two(d, d.passthru("p0", "l0.m0"), d.passthru("p1", "l0.m1"))
+    return out
+
+
 def selfref_designs():
     """a block is declared before / after a method it invokes itself (meaning: relative to the OTHER
     callers); further constraints on that method must still hold for it"""
@@ -1394,7 +1418,7 @@ def rand_designs(n, tag="c02cl-rand"):
 
 def corpus(quick):
     out = pair_grid(quick)
-    out += multi_caller() + cycle_designs() + contra_designs() + selfref_designs()
+    out += multi_caller() + cycle_designs() + contra_designs() + selfref_designs() + eqboth_designs()
     out += passthru_designs() + leafblk_designs() + mixed_designs() + openloop_designs()
     out += greenlet_designs(quick)
     out += rand_designs(40 if quick else 600)
@@ -1836,7 +1860,8 @@ def run_phase(res, tier):
             names = sorted({designs[x["d"] - 1].name for x in lst})
             res.violation("cl:sched-crash:%s:%s:greenlet-wrapped-block" % (mode, cls),
                           "pass group %s refuses schedulable CL designs that hold a block calling a blocking method "
-                          "(greenlet ticker) with %s (%d designs, e.g. %s)" % (mode, t.get("exc"), len(names), names[0]),
+                          "(greenlet ticker) with %s (%d designs, e.g. %s)" %
+                          (mode, re.sub(r" at 0x[0-9a-f]+", "", t.get("exc") or cls), len(names), names[0]),
                           {"design": descs[t["d"] - 1], "source": d.source(), "exception": t.get("exc"),
                            "designs": names})
         for (err, name), lst in sorted(failed.items()):
